@@ -114,6 +114,17 @@ def lower(e: Ex, arrays) -> Ex:
             f = {"sumband2": "PyInterp.sumBand2", "slicenonneg2": "PyInterp.allNonneg2", "rowmaskzero": "PyInterp.rowMaskZero",
                  "rownonneg": "PyInterp.rowNonneg"}[e.op]
             return Ex("var", e.ty, (), "(" + " ".join([f, info.lean] + list(info.dims) + a) + ")")
+        if e.op == "vecloop":
+            n, var, sub = e.aux
+
+            class _K:  # what pyloops.lean_tree needs of a kernel
+                pass
+            _K.arrays = arrays
+            lines = pyloops.lean_tree(lower_tree(sub, arrays), "          ", _K)
+            last = lines.pop().strip()
+            lines += [f"          let pyOut : Bool × Val := {last}",
+                      "          if pyOut.1 then PyLoops.Res.ok pyOut.2 else PyLoops.Res.outOfBounds))"]
+            return Ex("var", e.ty, (), f"(PyInterp.collect {n} (fun ({var} : Int) =>\n" + "\n".join(lines))
         if e.op == "inbaxis0":
             return Ex("var", e.ty, (), f"(PyLoops.inb {arrays[e.aux].dims[0]} {a[0]})")
         text = {"band": "(PyInterp.band {0} {1})", "bor": "(PyInterp.bor {0} {1})", "trunc": "(PyInterp.truncRat {0})"}
@@ -194,6 +205,17 @@ def ev(e: Ex, env, arrays):
         return a[0][i] if 0 <= i < len(a[0]) else False
     if e.op == "vinbb":
         return 0 <= pyloops.wrap(len(a[0]), a[1]) < len(a[0])
+    if e.op == "vecloop":
+        n, var, sub = e.aux
+        out = []
+        for k in range(n):
+            env_k = dict(env)
+            env_k[var] = k
+            _, vals = run_tree(sub, env_k, arrays)
+            if not vals[0]:
+                return ("outOfBounds", None)
+            out.append(vals[1])
+        return ("ok", out)
     if e.op == "resok":
         return a[0][0] == "ok"
     if e.op == "resget":
@@ -463,7 +485,7 @@ LEAN_TYPE.setdefault(RESVEC, "PyLoops.Res (List Val)")
 VECBOOL = "vecbool"  # a 1-D boolean array (a mask), as `List Bool`
 LEAN_TYPE.setdefault(VECBOOL, "List Bool")
 NEW_OPS |= {"call", "resok", "resget", "countfinite", "anyfinite", "nanmedian", "sortedabsget", "vinb", "sumband2", "slicenonneg2",
-            "rowmaskzero", "rownonneg", "inbaxis0", "vreverse", "argmax", "vnonempty", "vgetb", "vinbb"}
+            "rowmaskzero", "rownonneg", "inbaxis0", "vreverse", "argmax", "vnonempty", "vgetb", "vinbb", "vecloop"}
 LOWER_TEXT = {
     "resok": "(PyInterp.Res.isOk {0})", "resget": "(PyInterp.Res.getD [] {0})", "countfinite": "(PyInterp.countFinite {0})",
     "anyfinite": "(PyInterp.anyFinite {0})", "nanmedian": "(PyInterp.nanmedian {0})",
@@ -619,8 +641,9 @@ class CopyExprTranslator(ExtExprTranslator):
 @dataclass
 class OutArray:
     name: str
-    source: str  # the array parameter it copies
+    source: str  # the array parameter it copies (None: a local vector filled by an inner loop)
     elem: str
+    index: tuple = None  # the index variables a store must use (None: the two pixel variables)
 
 
 class CopyKernelTranslator(VecKernelTranslator):
@@ -640,8 +663,18 @@ class CopyKernelTranslator(VecKernelTranslator):
                 return i
         return None
 
-    def cell_name(self, k: int) -> str:
+    def cell_name(self, k) -> str:
+        if isinstance(k, str):  # a local vector met by the assignment analysis outside the loop that fills it
+            return f"{k}#0"
         return f"{self.outs[k].name}#0"
+
+    def local_vectors(self):
+        """names bound somewhere in the function by `v = np.full(N, np.nan, …)`"""
+        if not hasattr(self, "_local_vecs"):
+            self._local_vecs = {node.targets[0].id for node in ast.walk(self.fn)
+                                if isinstance(node, ast.Assign) and len(node.targets) == 1 and isinstance(node.targets[0], ast.Name)
+                                and isinstance(node.value, ast.Call) and self.is_np_full_nan(node.value) is not None}
+        return self._local_vecs
 
     def cell_lean(self, k: int) -> str:
         return lean_ident(f"{self.outs[k].name}_px")
@@ -653,11 +686,14 @@ class CopyKernelTranslator(VecKernelTranslator):
 
     def store_cell(self, t: ast.Subscript) -> int:
         k = self.out_index(t.value.id) if isinstance(t.value, ast.Name) else None
+        if k is None and isinstance(t.value, ast.Name) and t.value.id in self.local_vectors():
+            return t.value.id  # only the analysis of assigned names gets here (`block` refuses such a store, see below)
         if k is None:
             self.bad(f"store into `{src(t)}`: only the copies {[o.name for o in self.outs]} are written")
         idx = t.slice.elts if isinstance(t.slice, ast.Tuple) else [t.slice]
-        if len(idx) != 2 or not all(isinstance(i, ast.Name) and i.id == v for i, v in zip(idx, self.pix)):
-            self.bad(f"`{src(t)}`: a pixel kernel stores at `[{self.pix[0]}, {self.pix[1]}]` only")
+        want = self.outs[k].index or self.pix
+        if len(idx) != len(want) or not all(isinstance(i, ast.Name) and i.id == v for i, v in zip(idx, want)):
+            self.bad(f"`{src(t)}`: `{self.outs[k].name}` is stored at `[{', '.join(want)}]` only")
         self.out_elem = self.outs[k].elem  # the element type `block` tests the stored value against
         return k
 
@@ -692,25 +728,32 @@ class CopyKernelTranslator(VecKernelTranslator):
                 return
             if is_np and f.attr == "array":
                 if len(v.args) != 1 or v.keywords or not isinstance(v.args[0], ast.List):
-                    self.bad(f"`{src(st)}`: expected np.array([[…], …]) of integer literals")
-                rows = []
+                    self.bad(f"`{src(st)}`: expected np.array([[…], …]) of numeric literals")
+                rows, is_float = [], False
                 for r in v.args[0].elts:
                     if not isinstance(r, ast.List) or not r.elts:
                         self.bad(f"`{src(st)}`: a row of the table is not a list")
                     row = []
                     for e in r.elts:
                         neg = isinstance(e, ast.UnaryOp) and isinstance(e.op, ast.USub)
-                        n = int_literal(e.operand if neg else e)
-                        if n is None:
-                            self.bad(f"`{src(st)}`: entry `{src(e)}` is not an integer literal (a float table changes the callee's types)")
-                        row.append(-n if neg else n)
+                        lit = e.operand if neg else e
+                        if not (isinstance(lit, ast.Constant) and isinstance(lit.value, (int, float)) and not isinstance(lit.value, bool)):
+                            self.bad(f"`{src(st)}`: entry `{src(e)}` is not a numeric literal")
+                        q = self.x.literal(lit)  # exact decimal reading of a float literal, or refusal
+                        is_float = is_float or q.ty == RAT
+                        row.append(-q.aux if neg else q.aux)
                     rows.append(row)
                 if not rows or len({len(r) for r in rows}) != 1:
                     self.bad(f"`{src(st)}`: ragged table")
                 if t.id in env or t.id in self.x.arrays or self.out_index(t.id) is not None:
                     self.bad(f"`{t.id}` is already bound")
-                text = "(PyLoops.tab2 (0 : Int) [" + ", ".join("[" + ", ".join(f"({n} : Int)" for n in r) + "]" for r in rows) + "])"
-                self.x.arrays[t.id] = ArrayInfo(t.id, INT, 2, text, [f"({len(rows)} : Int)", f"({len(rows[0])} : Int)"])
+                # numpy: one float entry makes the whole table float64 (exact for these literals); otherwise int64
+                elem = RAT if is_float else INT
+                ty = "Rat" if is_float else "Int"
+                cell = (lambda q: pyexpr.lean_lit(q, "rat")) if is_float else (lambda q: f"({int(q)} : Int)")
+                rows = [[Fraction(q) if is_float else int(q) for q in r] for r in rows]
+                text = f"(PyLoops.tab2 (0 : {ty}) [" + ", ".join("[" + ", ".join(cell(q) for q in r) + "]" for r in rows) + "])"
+                self.x.arrays[t.id] = ArrayInfo(t.id, elem, 2, text, [f"({len(rows)} : Int)", f"({len(rows[0])} : Int)"])
                 self.literals[t.id] = rows
                 return
         super().prelude_stmt(st, env, lets)
@@ -719,6 +762,11 @@ class CopyKernelTranslator(VecKernelTranslator):
     def block(self, ss, env, cont, leaf, brk_leaf):  # noqa: C901
         if ss:
             st, rest = ss[0], list(ss[1:])
+            if isinstance(st, (ast.Assign, ast.AugAssign)):
+                tg = st.targets[0] if isinstance(st, ast.Assign) else st.target
+                if isinstance(tg, ast.Subscript) and isinstance(tg.value, ast.Name) and tg.value.id in self.local_vectors() \
+                        and self.out_index(tg.value.id) is None:
+                    self.bad(f"`{src(st)}`: `{tg.value.id}` is stored outside the loop that fills it")
             if isinstance(st, ast.AugAssign) and isinstance(st.target, ast.Subscript) and isinstance(st.op, (ast.BitOr, ast.BitAnd)):
                 k = self.store_cell(st.target)
                 name = self.cell_name(k)
@@ -736,6 +784,9 @@ class CopyKernelTranslator(VecKernelTranslator):
                 env2 = dict(env)
                 env2[name] = Binding(self.lean_of(name), INT)
                 return self.with_checks(lambda: TLet(self.lean_of(name), e, self.block(rest, env2, cont, leaf, brk_leaf)))
+            if isinstance(st, ast.Assign) and len(st.targets) == 1 and isinstance(st.targets[0], ast.Name) and isinstance(st.value, ast.Call) \
+                    and self.is_np_full_nan(st.value) is not None:
+                return self.vec_loop_stmt(st, rest, env, cont, leaf, brk_leaf)
             if isinstance(st, ast.Assign) and len(st.targets) == 1 and isinstance(st.targets[0], ast.Name) and isinstance(st.value, ast.Call):
                 t, v = st.targets[0].id, st.value
                 if isinstance(v.func, ast.Name) and v.func.id in self.callees and v.func.id not in env:
@@ -771,6 +822,79 @@ class CopyKernelTranslator(VecKernelTranslator):
                 if isinstance(tg, ast.Name) and tg.id in env and (env[tg.id].ty == VECVAL or str(env[tg.id].ty).startswith("perm:")):
                     self.bad(f"`{src(st)}`: the vector local `{tg.id}` is assigned twice")
         return super().block(ss, env, cont, leaf, brk_leaf)
+
+    def is_np_full_nan(self, v: ast.Call):
+        """`np.full(<int literal N>, np.nan, dtype=np.float32|float64)` -> N, else None"""
+        f = v.func
+        if not (isinstance(f, ast.Attribute) and f.attr == "full" and isinstance(f.value, ast.Name) and f.value.id in self.numpy_names):
+            return None
+        if len(v.args) != 2 or len(v.keywords) != 1 or v.keywords[0].arg != "dtype":
+            return None
+        n, fill, d = int_literal(v.args[0]), v.args[1], v.keywords[0].value
+        if n is None or not 1 <= n <= 64:
+            return None
+        if not (isinstance(fill, ast.Attribute) and isinstance(fill.value, ast.Name) and fill.value.id in self.numpy_names
+                and fill.attr in ("nan", "NaN", "NAN")):
+            return None
+        if not (isinstance(d, ast.Attribute) and isinstance(d.value, ast.Name) and d.value.id in self.numpy_names
+                and d.attr in pyloops.FLOAT_DTYPES):
+            return None
+        return n
+
+    def vec_loop_stmt(self, st, rest, env, cont, leaf, brk_leaf):  # noqa: C901
+        """`v = np.full(N, np.nan, dtype=…)` immediately followed by `for k in range(N): BODY`, BODY storing only at `v[k]`,
+        never reading `v`, assigning no local bound outside it: an inlined vector kernel.  `v[k]` is a function of `k`
+        (starting from NaN): `v := PyInterp.collect N (fun k => <that function>)`, `Res.outOfBounds` when one of its tests fails."""
+        name = st.targets[0].id
+        n = self.is_np_full_nan(st.value)
+        self.fresh_local(name, env)
+        if not rest or not isinstance(rest[0], ast.For):
+            self.bad(f"`{src(st)}` must be followed by the loop that fills `{name}`")
+        loop, after = rest[0], rest[1:]
+        var, e0, body = self.simple_range_loop(loop)
+        if int_literal(e0) != n:
+            self.bad(f"`{name}` has {n} cells but the loop that fills it runs over range({src(e0)})")
+        if var in env or var in self.frozen or var.startswith("py"):
+            self.bad(f"the loop variable `{var}` is already bound")
+        store_bases = {id(node.value) for node in ast.walk(loop) if isinstance(node, ast.Subscript) and isinstance(node.ctx, ast.Store)}
+        for node in ast.walk(loop):
+            if isinstance(node, ast.AugAssign) and isinstance(node.target, ast.Subscript) and isinstance(node.target.value, ast.Name) \
+                    and node.target.value.id == name:
+                self.bad(f"`{src(node)}`: `{name}` is read inside the loop that fills it")
+            if isinstance(node, ast.Name) and node.id == name and id(node) not in store_bases:
+                self.bad(f"`{name}` is read inside the loop that fills it")
+        saved_outs, saved_frozen = self.outs, self.frozen
+        self.outs = list(self.outs) + [OutArray(name, None, VAL, (var,))]
+        self.frozen = set(self.frozen) | {var}
+        try:
+            k = len(self.outs) - 1
+            cell = self.cell_name(k)
+            for a in self.assigned(body):
+                if a in (OK, cell):
+                    continue
+                if "#" in a:
+                    self.bad(f"the loop that fills `{name}` stores into `{a.split('#')[0]}`")
+                if a in env or a in saved_frozen:
+                    self.bad(f"the loop that fills `{name}` assigns `{a}`, bound outside it (a value would flow between its iterations)")
+                if a.startswith("py") or a in pyexpr.BUILTINS or a in self.numpy_names or a in ("int", "math"):
+                    self.bad(f"the local `{a}` collides with a name the translator uses")
+            env_in = dict(env)
+            env_in[var] = Binding(lean_ident(var), INT)
+            env_in[OK] = Binding(OK, BOOL)
+            env_in[cell] = Binding(self.cell_lean(k), VAL)
+            sub = self.block(list(body), env_in, [], lambda e: TYield([self.var(e[OK]), self.var(e[cell])]), None)
+            sub = TLet(OK, Ex("const", BOOL, (), True), TLet(self.cell_lean(k), Ex("nan", VAL), sub))
+        finally:
+            self.outs, self.frozen = saved_outs, saved_frozen
+        self.ncall += 1
+        res = f"pyVec{self.ncall}"
+        e_loop = Ex("vecloop", RESVEC, (), (n, lean_ident(var), sub))
+        env2 = dict(env)
+        env2[name] = Binding(lean_ident(name), VECVAL)
+        rvar = Ex("var", RESVEC, (), res)
+        return TLet(res, e_loop,
+                    TLet(OK, Ex("and", BOOL, (Ex("var", BOOL, (), OK), Ex("resok", BOOL, (rvar,)))),
+                         TLet(lean_ident(name), Ex("resget", VECVAL, (rvar,)), self.block(list(after), env2, cont, leaf, brk_leaf))))
 
     def fresh_local(self, name, env):
         if name in env or name in self.frozen or name in self.x.arrays or self.out_index(name) is not None or name.startswith("py"):
